@@ -108,6 +108,7 @@ def run(chk, replay=None):
             nargs = [(m.get(n, n), v) for n, v in args]
             jobs.append((g, role, text, nargs, bx, str(m)[:200]))
         jobs.append((g, "layout", layout.relayout(r, g.text, crlf=r.random() < 0.3), args, bx, ""))
+        jobs.append((g, "layout", layout.relayout(r, g.text, crlf=False, comments=True, comment_rate=0.6), args, bx, "comments (multi-byte characters) in front of most tokens"))
         if "match(" in g.text or "match (" in g.text:
             jobs.append((g, "layout", g.text.replace("match(", "match\t(").replace("match (", "match("), args, bx, "blank between match and a parenthesised scrutinee"))
         if g.aliases:
